@@ -21,6 +21,10 @@ impl Family {
             ("assert-2-sizes", true) => 5,
             ("frozen-constant-body", false) => 4,
             ("symbol-named-like-a-parameter", false) => 4,
+            ("subrule-operand", false) => 4,
+            ("late-flipping-boolean-constant", false) => 5,
+            ("late-flipping-boolean-constant", true) => 6,
+            ("subrule-operand", true) => 5,
             ("symbol-named-like-a-parameter", true) => 5,
             ("frozen-constant-body", true) => 5,
             (_, false) => 3,
@@ -48,6 +52,9 @@ fn common_items() -> Vec<Item> {
         Item::Instr("ld B".into()),
         Item::Instr("st A".into()),
         Item::Data(Some(8), vec!["A[7:0]".into()]),
+        // a boolean constant that depends on a label, and a use of it
+        Item::Const("far".into(), "B > 2".into()),
+        Item::Data(Some(8), vec!["far ? 0xaa : 0xbb".into()]),
     ]
 }
 
@@ -106,6 +113,36 @@ pub fn families() -> Vec<Family> {
             ],
         },
         Family {
+            // a boolean constant that depends on a label which settles late, used before its definition
+            name: "late-flipping-boolean-constant",
+            rules: vec![RuleSrc::new("jb {a}", "{ assert(a < 4), 0xa @ a`4 }"), RuleSrc::new("jb {a}", "0xb0 @ a`8"), RuleSrc::new("nop", "0x00")],
+            items: vec![
+                Item::Data(Some(8), vec!["far ? 0xaa : 0xbb".into()]),
+                Item::Const("far".into(), "B > 3".into()),
+                Item::Instr("jb B".into()),
+                Item::Instr("jb A".into()),
+                Item::Label("A".into()),
+                Item::Label("B".into()),
+                Item::Instr("nop".into()),
+            ],
+        },
+        Family {
+            // operands that go through a sub-rule with its own expression parameter, behind a cascading instruction
+            name: "subrule-operand",
+            rules: vec![RuleSrc::new("jb {a}", "{ assert(a < 5), 0xa @ a`4 }"), RuleSrc::new("jb {a}", "0xb0 @ a`8"), RuleSrc::new("lx {s: ind}", "0x3 @ s"), RuleSrc::new("nop", "0x00")],
+            items: vec![
+                Item::Instr("jb B".into()),
+                Item::Instr("jb A".into()),
+                Item::Instr("lx [A]".into()),
+                Item::Instr("lx [B]".into()),
+                Item::Instr("lx [$]".into()),
+                Item::Instr("lx #A".into()),
+                Item::Label("A".into()),
+                Item::Label("B".into()),
+                Item::Instr("nop".into()),
+            ],
+        },
+        Family {
             // a symbol that has the same name as a parameter of the rule used on the same line
             name: "symbol-named-like-a-parameter",
             rules: vec![RuleSrc::new("jb {a}", "{ assert(a < 6), 0xa @ a`4 }"), RuleSrc::new("jb {a}", "0xb0 @ a`8"), RuleSrc::new("mov {x}, {y}", "0x10 @ x`8 @ y`8"), RuleSrc::new("nop", "0x00")],
@@ -143,7 +180,12 @@ pub fn families() -> Vec<Family> {
 }
 
 pub fn prog_of(f: &Family, seq: &[usize]) -> Prog {
-    Prog { ruledefs: vec![RuleDefSrc { name: None, sub: false, rules: f.rules.clone() }], items: seq.iter().map(|i| f.items[*i].clone()).collect() }
+    let mut ruledefs = vec![];
+    if f.rules.iter().any(|r| r.pattern.contains(": ind}")) {
+        ruledefs.push(RuleDefSrc { name: Some("ind".into()), sub: true, rules: vec![RuleSrc::new("[{v}]", "0x1 @ v`8"), RuleSrc::new("#{v: u8}", "0x2 @ v")] });
+    }
+    ruledefs.push(RuleDefSrc { name: None, sub: false, rules: f.rules.clone() });
+    Prog { ruledefs, items: seq.iter().map(|i| f.items[*i].clone()).collect() }
 }
 
 /// forward chain of length n: needs about n+1 passes; `oscillate` adds an instruction with no fixed point
@@ -170,6 +212,49 @@ pub fn chain_prog(n: usize, oscillate: bool) -> Prog {
         items.push(Item::Label("E2".into()));
     }
     Prog { ruledefs: vec![RuleDefSrc { name: None, sub: false, rules }], items }
+}
+
+/// Directed family: a boolean constant over a label that only settles in the third pass (a pc-relative short
+/// jump that can shrink only after another one did), used before or after its definition, for every
+/// threshold and padding: {use first, constant first} x thresholds 0..6 x pads 0..2 x 0..2.
+pub fn late_bool_progs() -> Vec<Prog> {
+    let rules = vec![
+        RuleSrc::new("nop", "0x00"),
+        RuleSrc::new("jmp {a}", "{ assert(a >= $), assert(a - $ <= 4), 0x10 }"),
+        RuleSrc::new("jmp {a}", "0x2000"),
+    ];
+    let mut out = vec![];
+    for use_first in [true, false] {
+        for t in 0..=6 {
+            for pad1 in 0..=2 {
+                for pad2 in 0..=2 {
+                    let mut items = vec![];
+                    let use_item = Item::Data(Some(8), vec!["far ? 0xaa : 0xbb".into()]);
+                    let konst = Item::Const("far".into(), format!("entry > {}", t));
+                    if use_first {
+                        items.push(use_item.clone());
+                        items.push(konst.clone());
+                    } else {
+                        items.push(konst.clone());
+                        items.push(use_item.clone());
+                    }
+                    items.push(Item::Instr("jmp mid".into()));
+                    items.push(Item::Label("entry".into()));
+                    items.push(Item::Instr("jmp end".into()));
+                    for _ in 0..pad1 {
+                        items.push(Item::Instr("nop".into()));
+                    }
+                    items.push(Item::Label("mid".into()));
+                    for _ in 0..pad2 {
+                        items.push(Item::Instr("nop".into()));
+                    }
+                    items.push(Item::Label("end".into()));
+                    out.push(Prog { ruledefs: vec![RuleDefSrc { name: None, sub: false, rules: rules.clone() }], items });
+                }
+            }
+        }
+    }
+    out
 }
 
 /// sizes of the instruction items as claimed by the real result (from the spans, in program order)
@@ -316,7 +401,7 @@ pub fn quick_budgets() -> Vec<usize> {
 pub fn run(ctx: &Ctx) -> Report {
     let mut rep = Report::new(
         "model_checking",
-        "ten rule families with value-dependent encodings (assert cascades with 2 and 3 sizes, typed-width cascade, pc-relative, far-is-short with no/oscillating fixed points, tie next to a cascade) x all item sequences up to a length over 15 items x iteration budgets x the 4 optimisation-switch combinations, plus the skeleton grid (forward chains of length 0..12, with and without an oscillator) x budgets 1..30 x 4; every claimed success is re-derived from its own final symbol values and instruction sizes (certificate). Non-trivial = program that needed >= 2 passes under some configuration; distinct by program text. states = distinct (program, passes, bits) final states certified, transitions = passes executed.",
+        "twelve rule families with value-dependent encodings (assert cascades with 2 and 3 sizes, typed-width cascade, pc-relative, far-is-short with no/oscillating fixed points, tie next to a cascade) x all item sequences up to a length over 15 items x iteration budgets x the 4 optimisation-switch combinations, plus the skeleton grid (forward chains of length 0..12, with and without an oscillator) x budgets 1..30 x 4; every claimed success is re-derived from its own final symbol values and instruction sizes (certificate). Non-trivial = program that needed >= 2 passes under some configuration; distinct by program text. states = distinct (program, passes, bits) final states certified, transitions = passes executed.",
     );
     let fams = families();
     let budgets: Vec<usize> = if ctx.thorough { (1..=30).collect() } else { quick_budgets() };
@@ -338,6 +423,9 @@ pub fn run(ctx: &Ctx) -> Report {
     let grid: Vec<(usize, bool)> = (0..=12).flat_map(|n| [(n, false), (n, true)]).collect();
     rep.absorb(par_cases(&grid, |(n, osc), l| judge(&chain_prog(*n, *osc), "skeleton-chain", &all_budgets, l)));
     levels.push(json!({"family": "skeleton grid: chains 0..12 x {plain, +oscillator} x budgets 1..30 x 4 switches", "programs": grid.len(), "runs": grid.len() * 120}));
+    let lb = late_bool_progs();
+    rep.absorb(par_cases(&lb, |p, l| judge(p, "late-boolean-directed", &all_budgets, l)));
+    levels.push(json!({"family": "late-settling boolean constant (directed): 2 orders x 7 thresholds x 3 x 3 pads x budgets 1..30 x 4 switches", "programs": lb.len()}));
     rep.extra("levels", json!(levels));
     rep.extra("budgets", json!(budgets));
     rep.assumptions = vec!["the certificate uses the reference matcher/evaluator (refasm) with the sizes and symbol values the assembler itself reports; it never predicts which fixed point is found".into(), "pass snapshots (hook H2 of DESIGN §1.1) were not needed: states are final states".into()];
